@@ -37,13 +37,10 @@ class Obj(object):
     pass
 
 
-# Behaviour of the UNCHANGED tree that contradicts the property text and is waiting for the coordinator's decision
-# (see the builder report): such inputs stay out of the default stream.
-#  (a) dm.name = <column derived from the same table, rows aligned> is inserted by reference by DataMatrix._set_col
-#      without coercion: a MixedColumn then holds 1.0 / numpy scalars / lists (dm.b = dm.a / 2, dm.c = dm.a @ f);
-#  (b) an int (or integer string) beyond the float64 range written to a FloatColumn raises OverflowError
-#      instead of storing a float.
-INCLUDE_PENDING_FINDINGS = False
+# Outside the claim (like int64 overflow): an int or integer string beyond the float64 range written to a FloatColumn
+# raises OverflowError (float(10**400) has no value); the generator leaves such inputs out for FloatColumns.
+# (A former finding -- dm.name = <column derived from the same table> inserted by reference without coercion -- was
+#  repaired in /repo: only a column that IS one of the table's columns is aliased; such writes are in the default stream.)
 
 # ---- a column object as the assigned value -------------------------------------------------------------------
 # how the target table (3 rows, column k = row number, column c of the kind under test) came to be
@@ -57,8 +54,9 @@ CV_FORMS = {'SliceAll': 'FSlice', 'Slice0n': 'FSlice', 'SlicePart': 'FSlice', 'S
 CV_SOURCES = ['MapSame', 'MapOther', 'MapOtherSliced', 'ArithSame', 'ArithOther',
               'Stored.KMixed', 'Stored.KFloat', 'Stored.KInt',
               'StoredSame.KMixed', 'StoredSame.KFloat', 'StoredSame.KInt', 'StoredSameSliced.KMixed']
-CV_SOURCES_QUICK = ['MapSame', 'MapOther', 'MapOtherSliced', 'ArithOther', 'Stored.KMixed', 'Stored.KFloat',
-                    'Stored.KInt', 'StoredSame.KFloat']
+CV_SOURCES_QUICK = ['MapSame', 'ArithSame', 'MapOther', 'MapOtherSliced', 'ArithOther', 'Stored.KMixed', 'Stored.KFloat',
+                    'Stored.KInt', 'StoredSame.KFloat', 'StoredSameSliced.KMixed']
+NOFACTS = (False, False, True, False)
 # table states x plain (non-column) values
 AFTER_PATHS = ['CellInt', 'SliceScalar', 'SliceSeq', 'IndexList', 'Selection', 'RowAttr', 'WholeSeq', 'WholeScalar']
 
@@ -145,10 +143,11 @@ class C05:
             'right only / a Row operand; a << EMPTY and EMPTY << a for an empty selection, DataMatrix(), '
             'DataMatrix(length=0), {}, a dict of empty columns, twice; slice; selection) x 9 forms (col[:], col[0:n], '
             'col[a:b] = value[a:b], index list, permuted index list, selection, dm.c = value, dm["c"] = value, constructor '
-            'keyword) x 8 (thorough: 12) sources (col @ f and col / 1 of the same / another table / sliced, i.e. MixedColumns '
+            'keyword) x 10 (thorough: 12) sources (col @ f and col / 1 of the same / another table / sliced, i.e. MixedColumns '
             'whose raw storage is NOT normal; stored columns of each type of another / the same table) x {2.0, unsupported '
             'object, "3"} x 3 types, and a 25-value alphabet on a 4x4x3 sub-grid; the assigned value handed to the spec is '
-            'the cell the value column hands out (value[1]); for dm.c = value the column must take the value\'s type. '
+            'the cell the value column hands out (value[1]); for dm.c = value the column must take the value\'s type (derived same-table columns are copied and '
+            'type-checked, only one of the table\'s own columns is aliased). '
             '(3) 6 plain values x 8 scalar/sequence/cell/Row paths x the 14 non-fresh table states x 3 types. '
             'thorough adds random ints/floats/strings and 6000 random (state, form, source, value) combinations. The cell is read '
             'back through col[i], iteration and Row access (all must agree and be plain int/float/str/None). '
@@ -160,8 +159,8 @@ class C05:
         'NumericColumn._checktype, IntColumn._checktype -> Gen/KCheck.v',
         'translator /verif/translate/gen_c05paths.py -> Gen/KC05Paths.v: guard of BaseColumn._setslicekey, scalar test of '
         'BaseColumn._tosequence, exit chain of NumericColumn._tosequence (translated); IntColumn._tosequence, '
-        'IntColumn._setslicekey, _setintkey, _setsequencekey, both _setdatamatrixkey, the column branch and tail of '
-        'DataMatrix._set_col, every assignment to _typechecking and the single exit of DataMatrix.__lshift__ (pinned by AST)',
+        'IntColumn._setslicekey, _setintkey, _setsequencekey, both _setdatamatrixkey, the exits and tail of the column '
+        'branch of DataMatrix._set_col (its by-reference test is translated: k_setcol_by_reference), every assignment to _typechecking and the single exit of DataMatrix.__lshift__ (pinned by AST)',
         'hand-written CPython/NumPy models in Base/PyVal.v and Model/Store.v (int(), float(), math.isnan, ==, '
         'float64/int64 array stores), exercised by the correspondence',
         'harness/c05.py, harness/pyobs.py (classification of objects incl. the builtins int(s)/float(s) as grammar oracle; '
@@ -175,9 +174,11 @@ class C05:
         'Model/C05Paths.v over pinned source and tied by the correspondence',
         '_typechecking is True on every column a caller can hold: pinned (assignments only in BaseColumn.__init__ and '
         'DataMatrix.__lshift__, which has one exit, after the re-enabling loop), and observed per column-valued case',
-        'pending (kept out of the default stream, INCLUDE_PENDING_FINDINGS): dm.name = <row-aligned column derived from '
-        'the same table> is inserted by reference without coercion; an integer beyond the float64 range written to a '
-        'FloatColumn raises OverflowError',
+        'float64 overflow is outside the claim: an int or integer string beyond the float64 range written to a FloatColumn '
+        'raises OverflowError (not generated for FloatColumns), like int64 overflow for IntColumns',
+        'dm.name = column: the four facts the translated by-reference test of DataMatrix._set_col looks at (owner, identity '
+        'with one of the table\'s columns, length, row ids) are read off the objects before the write and handed to the '
+        'L1 model only; the L0 oracle judges the stored cell and the column type',
     ]
 
     # ---- implementation runner ------------------------------------------
@@ -381,7 +382,7 @@ class C05:
         return o.s[:] if name == 'StoredSameSliced' else o.s
 
     def _write_colval(self, kind, state, form, src, v):
-        """-> ('skip',) or (status, result, info) where info = (k2, tc, raw, kobs)"""
+        """-> ('skip',) or (status, result, info) where info = (k2, tc, raw, kobs, set_col facts)"""
         from datamatrix import DataMatrix, MixedColumn, FloatColumn, IntColumn
         ct = coltype(kind)
         kinds = {MixedColumn: 'KMixed', FloatColumn: 'KFloat', IntColumn: 'KInt'}
@@ -390,14 +391,23 @@ class C05:
             col = self._source(dm, src, v)
             if col is not None and (len(dm) != 3 or type(dm.c) is not ct or len(col) != 3):
                 return ('typefail', 'building the table state %s / the value column %s went wrong' % (state, src),
-                        (kind, True, v, kind))
+                        (kind, True, v, kind, NOFACTS))
         except Exception as e:      # noqa: BLE001  (judged: the preparation uses only operations that must succeed)
-            return ('exn', pyobs.exn_name(e), (kind, True, v, kind))
+            return ('exn', pyobs.exn_name(e), (kind, True, v, kind, NOFACTS))
         if col is None:
             return ('skip',)
         k2 = kinds[type(col)]
         raw = col[1]                       # the cell as the column hands it out
         tc = bool(getattr(dm.c, '_typechecking', True))
+        # what the by-reference test of DataMatrix._set_col looks at (for the L1 model of dm.c = column only)
+        try:
+            if form == 'CtorKw':
+                facts = (False, False, len(col) == 3, [int(i) for i in col._rowid] == [0, 1, 2])
+            else:
+                facts = (col._datamatrix is dm, any(col is c for c in dm._cols.values()), len(col) == len(dm),
+                         [int(i) for i in col._rowid] == [int(i) for i in dm._rowid])
+        except Exception:           # noqa: BLE001
+            facts = NOFACTS
         try:
             if form == 'SliceAll':
                 dm.c[:] = col
@@ -422,17 +432,15 @@ class C05:
         except AssertionError:
             raise
         except Exception as e:      # noqa: BLE001
-            return ('exn', pyobs.exn_name(e), (k2, tc, raw, kind))
+            return ('exn', pyobs.exn_name(e), (k2, tc, raw, kind, facts))
         c = dm.c
         if type(c) not in kinds:
-            return ('typefail', 'column type is %s' % type(c).__name__, (k2, tc, raw, kind))
-        return ('ok', (c[1], list(c)[1], dm[1].c, dm[1]['c']), (k2, tc, raw, kinds[type(c)]))
+            return ('typefail', 'column type is %s' % type(c).__name__, (k2, tc, raw, kind, facts))
+        return ('ok', (c[1], list(c)[1], dm[1].c, dm[1]['c']), (k2, tc, raw, kinds[type(c)], facts))
 
     def cv_applicable(self, kind, state, form, src, v):
         if form == 'CtorKw' and state != 'fresh':
             return False
-        if not INCLUDE_PENDING_FINDINGS and CV_FORMS[form] == 'FSetCol' and src in ('MapSame', 'ArithSame'):
-            return False            # pending finding (a): inserted by reference, raw storage not coerced
         return True
 
     def _rerun_colval(self, inp):
@@ -443,7 +451,7 @@ class C05:
             out = self._write_colval(kind, state, form, src, v)
         if out[0] == 'skip':
             return None
-        k2, tc, raw, kobs = out[2]
+        k2, tc, raw, kobs, facts = out[2]
         kexp = k2 if CV_FORMS[form] == 'FSetCol' else kind
         # outside the claim / the model: int64 and float64 overflow of the cell handed out
         if not self.applicable(kexp, 'ColVal', raw) or not self.applicable(kind, 'ColVal', raw):
@@ -472,10 +480,15 @@ class C05:
         pv = pyobs.pyv(raw)
         trivial = out[0] == 'ok' and pyfail is None and pyobs.val(raw) == pyobs.val(out[1][0])
         setform = CV_FORMS[form] == 'FSetCol'
+        observed['set_col_facts'] = list(facts) if setform else None
+        if setform:
+            m_expr = '(model_agrees_setcol %s %s %s %s)' % (' '.join(L.boolean(b) for b in facts), k2, pv, obs_lit)
+        else:
+            m_expr = '(model_agrees_colval %s %s %s %s %s %s)' % (L.boolean(tc), CV_FORMS[form], kind, k2, pv, obs_lit)
         return {
             'input': inp, 'observed': observed, 'pyfail': pyfail,
             'oracle': '(oracle_colval %s %s %s %s %s %s)' % (L.boolean(setform), kind, k2, kobs, pv, obs_lit),
-            'model': '(model_agrees_colval %s %s %s %s %s %s)' % (L.boolean(tc), CV_FORMS[form], kind, k2, pv, obs_lit),
+            'model': m_expr,
             'nontrivial': not trivial,
             'sig': '%s|%s|%s' % (kind, inp['path'], pyobs.pyv(v) if not isinstance(v, Obj) else 'POther'),
             'tags': [kind, 'ColVal', 'state:' + state, 'form:' + form, 'src:' + src, pv.split(' ')[0].strip('()')],
@@ -486,8 +499,8 @@ class C05:
             return False
         if path == 'CsvRead' and not (type(v) is str and '\r' not in v and '\x00' not in v and v != ''):
             return False
-        if kind == 'KFloat' and not INCLUDE_PENDING_FINDINGS:
-            # pending finding (b): an integer beyond the float64 range
+        if kind == 'KFloat':
+            # float64 overflow is outside the claim: an integer beyond the float64 range
             x = v
             if type(v) is str:
                 try:
